@@ -158,6 +158,8 @@ def run_unit(unit, defines=None, vacuity=False, rlimit=None, seed=None, tag='mai
             ls = sp.get('line_start')
             le = sp.get('line_end') or ls
             o = linemap[ls] if ls is not None and 0 < ls < len(linemap) else None
+            if sp.get('file_name') not in (fname, None):
+                o = None  # a span inside vstd (e.g. the precondition of Vec::index), not in the unit file
             if o and o.get('kind') in ('contract', 'template') and not o.get('tags'):
                 # a clause may span several lines; its tag sits on its last line
                 for k in range(ls, min(le, len(linemap) - 1) + 1):
